@@ -254,7 +254,7 @@ example : 2 ^ 32 * 2 ^ 30 < maskDiv 5 2 false * convertBound (30 + 32) 5 2 false
 /-- the `_mod` mask as it was before repo commit 4d82624 (`r_divb = _random(Zp, 1 << k)`, not growing with `l`):
 for secint(32), k = 30, b = 3, m = 3, t = 1 every opened value possible for `a = -2147483646` is below every
 opened value possible for `a' = 2147483646`, while `a % 3 = a' % 3`: distance 1 for inputs with equal outputs.
-(Replayed on the real code: corpus/C18.) -/
+(Reproducer on the real code: harness/reports/Share.md.) -/
 theorem mod_old_mask_insufficient :
     let B := maskBound (2 ^ 30) 3 1 false
     let A := 2147483650
